@@ -1,0 +1,338 @@
+//! Value-log facade (property C11): the crate's ValuePointer / ValueLocation codecs, a value log
+//! on a directory of its own (append / sync / get / clean-up), a memtable flush with value
+//! separation on generated entries, and a read-only dump of a running store's value-log
+//! bookkeeping (directory listing, writer ids, every live table's `oldest_vlog_file_id` and
+//! stored values, the version index). Plain data in and out.
+
+use std::path::Path;
+use std::sync::Arc;
+
+use crate::batch::Batch;
+use crate::memtable::MemTable;
+use crate::vlog::{
+	VLog, VLogFileHeader, ValueLocation, ValuePointer, BIT_VALUE_POINTER, VALUE_LOCATION_VERSION,
+	VALUE_POINTER_SIZE, VALUE_POINTER_VERSION, VLOG_FORMAT_VERSION,
+};
+use crate::{InternalKeyKind, LSMIterator, Options, Tree, VLogChecksumLevel};
+
+#[derive(Debug, Clone, PartialEq, Eq)]
+pub struct Ptr {
+	pub version: u8,
+	pub file_id: u32,
+	pub offset: u64,
+	pub key_size: u32,
+	pub value_size: u32,
+	pub checksum: u32,
+}
+
+fn to_ptr(p: &ValuePointer) -> Ptr {
+	Ptr {
+		version: p.version,
+		file_id: p.file_id,
+		offset: p.offset,
+		key_size: p.key_size,
+		value_size: p.value_size,
+		checksum: p.checksum,
+	}
+}
+
+fn from_ptr(p: &Ptr) -> ValuePointer {
+	let mut q = ValuePointer::new(p.file_id, p.offset, p.key_size, p.value_size, p.checksum);
+	q.version = p.version;
+	q
+}
+
+/// (VALUE_POINTER_SIZE, BIT_VALUE_POINTER, VALUE_LOCATION_VERSION, VALUE_POINTER_VERSION,
+/// VLOG_FORMAT_VERSION, header size)
+pub fn constants() -> (usize, u8, u8, u8, u16, usize) {
+	let h = VLogFileHeader::new(1, 1, 0).encode().len();
+	(
+		VALUE_POINTER_SIZE,
+		BIT_VALUE_POINTER,
+		VALUE_LOCATION_VERSION,
+		VALUE_POINTER_VERSION,
+		VLOG_FORMAT_VERSION,
+		h,
+	)
+}
+
+pub fn pointer_encode(p: &Ptr) -> Vec<u8> {
+	from_ptr(p).encode()
+}
+
+pub fn pointer_decode(d: &[u8]) -> Result<Ptr, String> {
+	ValuePointer::decode(d).map(|p| to_ptr(&p)).map_err(|e| e.to_string())
+}
+
+pub fn location_encode(meta: u8, version: u8, value: &[u8]) -> Vec<u8> {
+	ValueLocation::new(meta, value.to_vec(), version).encode()
+}
+
+/// (meta, version, value, is_value_pointer)
+pub fn location_decode(d: &[u8]) -> Result<(u8, u8, Vec<u8>, bool), String> {
+	ValueLocation::decode(d)
+		.map(|l| {
+			let isp = l.is_value_pointer();
+			(l.meta, l.version, l.value, isp)
+		})
+		.map_err(|e| e.to_string())
+}
+
+pub fn location_with_pointer(p: &Ptr) -> Vec<u8> {
+	ValueLocation::with_pointer(from_ptr(p)).encode()
+}
+
+pub fn location_inline(v: &[u8]) -> Vec<u8> {
+	ValueLocation::with_inline_value(v.to_vec()).encode()
+}
+
+/// The pointer a stored value holds, found the way TableWriter::add and the index prune find it.
+pub fn pointer_of(stored: &[u8]) -> Option<Ptr> {
+	if let Ok(location) = ValueLocation::decode(stored) {
+		if location.is_value_pointer() {
+			if let Ok(pointer) = ValuePointer::decode(&location.value) {
+				return Some(to_ptr(&pointer));
+			}
+		}
+	}
+	None
+}
+
+fn vlog_opts(dir: &Path, max_file_size: u64, full: bool) -> Result<Arc<Options>, String> {
+	let mut o = Options::new();
+	o.path = dir.to_path_buf();
+	o.enable_vlog = true;
+	o.vlog_max_file_size = max_file_size;
+	o.vlog_checksum_verification = if full {
+		VLogChecksumLevel::Full
+	} else {
+		VLogChecksumLevel::Disabled
+	};
+	std::fs::create_dir_all(o.vlog_dir()).map_err(|e| e.to_string())?;
+	std::fs::create_dir_all(o.sstable_dir()).map_err(|e| e.to_string())?;
+	Ok(Arc::new(o))
+}
+
+fn list_files(opts: &Options) -> Vec<(u32, u64)> {
+	let mut out = Vec::new();
+	if let Ok(rd) = std::fs::read_dir(opts.vlog_dir()) {
+		for e in rd.flatten() {
+			let name = e.file_name().to_string_lossy().to_string();
+			if let Some(id) = opts.extract_vlog_file_id(&name) {
+				out.push((id, e.metadata().map(|m| m.len()).unwrap_or(0)));
+			}
+		}
+	}
+	out.sort();
+	out
+}
+
+/// A value log on a directory of its own.
+pub struct Log {
+	vlog: Arc<VLog>,
+	opts: Arc<Options>,
+}
+
+impl Log {
+	/// Opens (or re-opens: the directory is scanned as at start-up) a value log under `dir`.
+	pub fn open(dir: &Path, max_file_size: u64, full: bool) -> Result<Log, String> {
+		let opts = vlog_opts(dir, max_file_size, full)?;
+		let vlog = VLog::new(Arc::clone(&opts)).map_err(|e| e.to_string())?;
+		Ok(Log {
+			vlog: Arc::new(vlog),
+			opts,
+		})
+	}
+
+	pub fn append(&self, key: &[u8], value: &[u8]) -> Result<Ptr, String> {
+		self.vlog.append(key, value).map(|p| to_ptr(&p)).map_err(|e| e.to_string())
+	}
+
+	pub fn sync(&self) -> Result<(), String> {
+		self.vlog.sync().map_err(|e| e.to_string())
+	}
+
+	pub fn get(&self, p: &Ptr) -> Result<Vec<u8>, String> {
+		self.vlog.get(&from_ptr(p)).map_err(|e| e.to_string())
+	}
+
+	pub fn cleanup(&self, min_oldest: u32) -> Result<(), String> {
+		self.vlog.cleanup_obsolete_files(min_oldest).map_err(|e| e.to_string())
+	}
+
+	pub fn close(&self) -> Result<(), String> {
+		self.vlog.close().map_err(|e| e.to_string())
+	}
+
+	/// (active writer id, next file id)
+	pub fn ids(&self) -> (u32, u32) {
+		use std::sync::atomic::Ordering;
+		(
+			self.vlog.active_writer_id.load(Ordering::SeqCst),
+			self.vlog.next_file_id.load(Ordering::SeqCst),
+		)
+	}
+
+	/// Directory listing: (file id, size in bytes), ascending.
+	pub fn files(&self) -> Vec<(u32, u64)> {
+		list_files(&self.opts)
+	}
+
+	pub fn file_bytes(&self, id: u32) -> Result<Vec<u8>, String> {
+		std::fs::read(self.opts.vlog_file_path(id as u64)).map_err(|e| e.to_string())
+	}
+}
+
+/// One generated memtable entry: user key, sequence number, true = Set / false = Delete,
+/// and the RAW stored value the memtable holds (for a Set written by a transaction this is
+/// `location_inline(value)`; any bytes can be given, e.g. an already-encoded pointer).
+pub struct MemEntry {
+	pub user_key: Vec<u8>,
+	pub seq: u64,
+	pub set: bool,
+	pub raw: Vec<u8>,
+}
+
+pub struct FlushOut {
+	/// table entries in table order: (encoded internal key, stored value)
+	pub entries: Vec<(Vec<u8>, Vec<u8>)>,
+	pub oldest_vlog_file_id: u64,
+	/// value-log directory after the flush
+	pub files: Vec<(u32, u64)>,
+	pub active: u32,
+	pub next: u32,
+}
+
+/// MemTable::flush with value separation on a fresh directory (`dir` must be empty): the
+/// memtable is filled with `entries`, flushed as table `table_id` through a new value log.
+pub fn mini_flush(
+	dir: &Path,
+	threshold: usize,
+	max_file_size: u64,
+	table_id: u64,
+	entries: &[MemEntry],
+) -> Result<FlushOut, String> {
+	let opts = vlog_opts(dir, max_file_size, true)?;
+	let vlog = Arc::new(VLog::new(Arc::clone(&opts)).map_err(|e| e.to_string())?);
+	let mem = MemTable::new(8 << 20);
+	for e in entries {
+		let mut b = Batch::new(e.seq);
+		let kind = if e.set {
+			InternalKeyKind::Set
+		} else {
+			InternalKeyKind::Delete
+		};
+		let val = if e.set {
+			Some(e.raw.clone())
+		} else {
+			None
+		};
+		b.add_record(kind, e.user_key.clone(), val, 0).map_err(|x| x.to_string())?;
+		mem.add(&b).map_err(|x| x.to_string())?;
+	}
+	let (table, _) = mem
+		.flush(table_id, Arc::clone(&opts), Some(&vlog), threshold, false)
+		.map_err(|x| x.to_string())?;
+	let mut out = Vec::new();
+	{
+		let mut it = table.iter(None).map_err(|x| x.to_string())?;
+		let mut ok = it.seek_first().map_err(|x| x.to_string())?;
+		while ok {
+			out.push((
+				it.key().encoded().to_vec(),
+				it.value_encoded().map_err(|x| x.to_string())?.to_vec(),
+			));
+			ok = it.next().map_err(|x| x.to_string())?;
+		}
+	}
+	use std::sync::atomic::Ordering;
+	Ok(FlushOut {
+		entries: out,
+		oldest_vlog_file_id: table.meta.properties.oldest_vlog_file_id,
+		files: list_files(&opts),
+		active: vlog.active_writer_id.load(Ordering::SeqCst),
+		next: vlog.next_file_id.load(Ordering::SeqCst),
+	})
+}
+
+pub struct TableDump {
+	pub id: u64,
+	pub level: u8,
+	pub oldest_vlog_file_id: u64,
+	/// (encoded internal key, stored value) in table order
+	pub entries: Vec<(Vec<u8>, Vec<u8>)>,
+}
+
+pub struct StateDump {
+	pub enabled: bool,
+	pub files: Vec<(u32, u64)>,
+	pub active: u32,
+	pub next: u32,
+	pub min_oldest: u32,
+	pub tables: Vec<TableDump>,
+	/// version index entries (key, stored value), None when the index is off
+	pub index: Option<Vec<(Vec<u8>, Vec<u8>)>>,
+}
+
+/// The value-log bookkeeping of a running store.
+pub fn vlog_state(tree: &Tree) -> Result<StateDump, String> {
+	use std::sync::atomic::Ordering;
+	let inner = &tree.core.inner;
+	let (enabled, active, next) = match inner.vlog.as_ref() {
+		Some(v) => (
+			true,
+			v.active_writer_id.load(Ordering::SeqCst),
+			v.next_file_id.load(Ordering::SeqCst),
+		),
+		None => (false, 0, 0),
+	};
+	let mut tables = Vec::new();
+	let min_oldest;
+	{
+		let m = inner.level_manifest.read().map_err(|e| e.to_string())?;
+		min_oldest = m.min_oldest_vlog_file_id();
+		for (li, l) in m.levels.get_levels().iter().enumerate() {
+			for t in l.tables.iter() {
+				let mut entries = Vec::new();
+				let mut it = t.iter(None).map_err(|x| x.to_string())?;
+				let mut ok = it.seek_first().map_err(|x| x.to_string())?;
+				while ok {
+					entries.push((
+						it.key().encoded().to_vec(),
+						it.value_encoded().map_err(|x| x.to_string())?.to_vec(),
+					));
+					ok = it.next().map_err(|x| x.to_string())?;
+				}
+				tables.push(TableDump {
+					id: t.id,
+					level: li as u8,
+					oldest_vlog_file_id: t.meta.properties.oldest_vlog_file_id,
+					entries,
+				});
+			}
+		}
+	}
+	tables.sort_by_key(|t| t.id);
+	let index = match inner.versioned_index.as_ref() {
+		None => None,
+		Some(ix) => {
+			let guard = ix.read();
+			let empty: &[u8] = &[];
+			let mut out = Vec::new();
+			for entry in guard.range(empty..).map_err(|e| e.to_string())? {
+				let (k, v) = entry.map_err(|e| e.to_string())?;
+				out.push((k.to_vec(), v.to_vec()));
+			}
+			Some(out)
+		}
+	};
+	Ok(StateDump {
+		enabled,
+		files: list_files(&inner.opts),
+		active,
+		next,
+		min_oldest,
+		tables,
+		index,
+	})
+}
